@@ -26,7 +26,7 @@ RULE = ("R-score compositions restricted to velocity 1-127 and values with an in
         "and format words. Non-trivial: a score with a rest and a chord, a key with accidentals, or a leading rest; a bpm that "
         "is not a divisor of 60000000; a VLQ range above 127; every corruption. Also: compositions with a track that has no bars "
         "among the others; whole tags replaced by the other chunk tag / foreign tags."
-        ' Also: values given as 288/k ticks, names of 120-300 characters, twin bars, shared instrument objects, tempo-carrying containers, and one reader object used for two different files; a track without bars among the others, chords that are not in ascending order (after item assignment), entries held in a user subclass of NoteContainer and instruments of a user subclass of MidiInstrument.')
+        ' Also: values given as 288/k ticks, names of 120-300 characters, twin bars, shared instrument objects, tempo-carrying containers, and one reader object used for two different files; a track without bars among the others, chords that are not in ascending order (after item assignment), entries held in a user subclass of NoteContainer and instruments of a user subclass of MidiInstrument. Bars holding one entry in every meter are enumerated.')
 ASSUMPTIONS = ["instrument numbers are compared for tracks with at least one sounding note (the program change rides on the first note-on)",
                "bars are re-cut by the reader: note content is compared on the flattened sequence only",
                "bpm domain 4..7000 (above ~7745 the 24-bit microseconds-per-quarter field cannot represent every integer bpm)",
